@@ -200,12 +200,14 @@ func propC18() Property {
 	return Property{
 		ID: "C18",
 		Explanation: "R1 (weekday domain): every time.Weekday value that the schedule code uses as a weekday — compared with another weekday, passed to or returned from a Weekday-typed parameter/result, stored in a Weekday field — lies in [0,6], by interval analysis over the expression (Time.Weekday() ∈ [0,6], constants, parameter intervals joined over in-module call sites, Go's truncated %, +, −). A Weekday difference converted straight to int (day-offset arithmetic) is not a sink. " +
-			"R2 (day-name table): every key of the configuration's day map names the Weekday constant it maps to (three-letter prefix), and all seven days are present. R3 (calendar days): window boundaries are wall-clock times in the configured zone, so moving a boundary by whole days must use calendar arithmetic (AddDate / time.Date); no time.Add / Sub in the schedule code takes a duration that is a day count times 24h — on a day with a zone transition that is an hour off, and two instants of one window are reported as different sessions.",
+			"R2 (day-name table): every key of the configuration's day map names the Weekday constant it maps to (three-letter prefix), and all seven days are present. R3 (calendar days): window boundaries are wall-clock times in the configured zone, so moving a boundary by whole days must use calendar arithmetic (AddDate / time.Date); no time.Add / Sub in the schedule code takes a duration that is a day count times 24h — on a day with a zone transition that is an hour off, and two instants of one window are reported as different sessions. R4 (one zone): every weekday / clock / date component read in a method of the schedule type is read from t.In(the range's location) or from a time.Date in that location. R5 (no dead arm): no block of those methods has a reach condition that demands incompatible orderings of the same two operands — an arm shadowed by a weakened earlier case never applies.",
 		NotDecided: "window semantics, IsInSameRange as a relation, time zones, daylight saving.",
 		Rules: []RuleDef{
 			{ID: "C18-R1", Desc: "weekday values stay in [0,6]", Min: 4, Run: c18R1},
 			{ID: "C18-R2", Desc: "day-name table", Min: 7, Run: c18R2},
 			{ID: "C18-R3", Desc: "whole days are added on the calendar, not as multiples of 24h", Min: 1, Run: c18R3},
+			{ID: "C18-R4", Desc: "wall-clock components are read in the configured zone", Min: 6, Run: c18R4},
+			{ID: "C18-R5", Desc: "no decision arm of the schedule code is dead by contradiction", Min: 10, Run: c18R5},
 		},
 	}
 }
@@ -553,4 +555,134 @@ func (p *Prog) valueAlternatives(v ssa.Value, use *ssa.BasicBlock, depth int) []
 		out = append(out, valueAlt{e, cond})
 	}
 	return out
+}
+
+// C18-R4: wall-clock components are read in the configured zone. In the methods of the schedule
+// type every (time.Time).Weekday / Clock / Date / Year / Month / Day / Hour … receiver is the
+// result of t.In(<the range's location>) (or of time.Date in that location): the weekday and the
+// time of day of one instant must come from the same zone.
+// C18-R5: no arm of a decision in the schedule code is dead by contradiction: a block whose reach
+// condition demands incompatible orderings of the same two operands (a <= b on the way in, then
+// a == b excluded, …) can never run — the case the author wrote for it silently never applies.
+func c18R4(c *Ctx) {
+	p := c.P
+	tr := p.Named(modPath+"/internal", "TimeRange")
+	reads := map[string]bool{"(time.Time).Weekday": true, "(time.Time).Clock": true, "(time.Time).Date": true, "(time.Time).Year": true, "(time.Time).Month": true, "(time.Time).Day": true, "(time.Time).Hour": true, "(time.Time).Minute": true, "(time.Time).Second": true}
+	n := 0
+	for _, fn := range p.FuncsIn(modPath + "/internal") {
+		rcv := fn.Signature.Recv()
+		if rcv == nil || namedOf(rcv.Type()) != tr {
+			continue
+		}
+		for _, cl := range Calls(fn) {
+			if !reads[callName(cl.Common())] {
+				continue
+			}
+			n++
+			ro := p.Origin(cl.Common().Args[0])
+			ok := ro.All(func(x *Org) bool {
+				if x.IsCallTo("(time.Time).In") && len(x.Args) == 1 {
+					return x.Args[0].Kind == "field" || x.Args[0].Kind == "deref" || x.Args[0].Mentions(func(y *Org) bool { return y.Kind == "field" })
+				}
+				return x.IsCallTo("time.Date")
+			})
+			c.Check(ok, FuncName(fn), p.InstrPos(cl.(ssa.Instruction)), "clock-read-in-configured-zone", callName(cl.Common())+" of a time converted to the range's location",
+				callName(cl.Common())+" is read from "+ro.String()+", which is not the instant converted to the schedule's configured location: the weekday (or time of day) is taken in whatever zone the caller's time value happens to carry, so the answer depends on the representation of the instant, not on the configured TimeZone")
+		}
+	}
+	if n == 0 {
+		c.Violation("", "-", "no-clock-reads", "the schedule type reads no wall-clock component")
+	}
+}
+
+func c18R5(c *Ctx) {
+	p := c.P
+	n := 0
+	for _, fn := range p.FuncsIn(modPath + "/internal") {
+		rcv := fn.Signature.Recv()
+		if rcv == nil || typeName(rcv.Type()) != "TimeRange" {
+			continue
+		}
+		for _, b := range fn.Blocks {
+			if len(b.Preds) == 0 && b != fn.Blocks[0] {
+				continue
+			}
+			d := p.ReachCond(b)
+			if len(d.Cs) == 0 {
+				continue
+			}
+			n++
+			dead := true
+			why := ""
+			for _, cj := range d.Cs {
+				if w := contradiction(cj); w == "" {
+					dead = false
+				} else {
+					why = w
+				}
+			}
+			if dead {
+				c.Violation(FuncName(fn), p.InstrPos(b.Instrs[0]), "dead-arm", "this arm can never run: its condition requires "+why+". The case written for it never applies, and the instants it was meant for fall into another arm (a window boundary is then computed from the wrong day offset)")
+			} else {
+				c.OK(FuncName(fn), p.InstrPos(b.Instrs[0]), "reachable")
+			}
+		}
+	}
+	if n == 0 {
+		c.Violation("", "-", "no-schedule-blocks", "no schedule decisions found")
+	}
+}
+
+// contradiction: two relational atoms of the conjunction over the same pair of operands whose
+// admissible orderings do not intersect. Returns a description or "".
+func contradiction(cj Conj) string {
+	type key struct{ a, b string }
+	const lt, eq, gt = 1, 2, 4
+	allowed := map[key]int{}
+	desc := map[key][]string{}
+	for _, a := range cj {
+		if a.Rel == "" || a.L == nil || a.R == nil {
+			continue
+		}
+		ls, rs := a.L.String(), a.R.String()
+		if strings.Contains(ls, "…") || strings.Contains(rs, "…") {
+			continue // loop-carried values: different iterations
+		}
+		m := 0
+		switch a.Rel {
+		case "<":
+			m = lt
+		case "<=":
+			m = lt | eq
+		case "==":
+			m = eq
+		case "!=":
+			m = lt | gt
+		}
+		k := key{ls, rs}
+		if ls > rs {
+			k = key{rs, ls}
+			// flip
+			f := 0
+			if m&lt != 0 {
+				f |= gt
+			}
+			if m&gt != 0 {
+				f |= lt
+			}
+			if m&eq != 0 {
+				f |= eq
+			}
+			m = f
+		}
+		if _, ok := allowed[k]; !ok {
+			allowed[k] = lt | eq | gt
+		}
+		allowed[k] &= m
+		desc[k] = append(desc[k], a.String())
+		if allowed[k] == 0 {
+			return strings.Join(desc[k], " and ")
+		}
+	}
+	return ""
 }
